@@ -37,10 +37,13 @@ def plan(tier, seed):
                     cases.append({"mode": "dfs", "cfg": cfg, "prefix": [0, c0, c1, c2], "depth": d + 1, "tier": tier})
     nwalk = 8000 if tier == "quick" else 150000
     for i in range(nwalk):
-        cases.append({"mode": "walk", "seed": seed, "idx": i, "cfg": {"n": 1 + i % 3, "async": i % 4 == 3, "foreign": i % 5 == 0, "hc": i % 3 == 1, "ext": i % 2 == 1, "sp": (i // 2) % 4 if i % 6 == 5 else 0, "veto": (seed * 100000 + i + 1) if i % 5 == 2 else 0, "restart2": i % 4 == 1}, "len": 10 + i % 5})
+        cases.append({"mode": "walk", "seed": seed, "idx": i, "cfg": {"n": 1 + i % 3, "async": i % 4 == 3, "foreign": i % 5 == 0, "hc": i % 3 == 1, "ext": i % 2 == 1, "sp": (i // 2) % 4 if i % 6 == 5 else 0, "veto": (seed * 100000 + i + 1) if i % 5 == 2 else 0, "restart2": i % 4 == 1, "orders_first": (i // 3) % 3}, "len": 10 + i % 5})
     # directed case for the listed finding C11-restart-replaced-bet
     cases.insert(0, {"mode": "events", "cfg": {"n": 1, "async": False}, "events": [["place", 0], ["resp", 0], ["fill", 0, 0.4], ["snap"], ["replace", 0], ["resp", 0], ["snap"], ["restart"]]})
     return cases
+
+
+FOREIGN_MID = "1.177777777"
 
 
 class Run:
@@ -92,7 +95,9 @@ class Run:
 
             self.w.fw.trading_controls.append(Veto(self.w.fw))
         if cfg.get("foreign"):
-            # a bet of a strategy that is not registered here: must be ignored without effect
+            # bets of a strategy that is not registered here: must be ignored without effect - also one in a market this instance has
+            # never heard of
+            self.ex._new_bet(FOREIGN_MID, {"selectionId": 801, "side": "LAY", "orderType": "LIMIT", "handicap": 0, "customerOrderRef": "0123456789abc-222222222222222222", "limitOrder": {"price": 2.5, "size": 4.0, "persistenceType": "PERSIST"}}, None)
             self.ex._new_bet(self.mid, {"selectionId": 703, "side": "BACK", "orderType": "LIMIT", "handicap": 0, "customerOrderRef": "0123456789abc-111111111111111111", "limitOrder": {"price": 4.0, "size": 3.0, "persistenceType": "LAPSE"}}, None)
 
     # ---- resolution of "order i"
@@ -229,13 +234,20 @@ class Run:
                 self.pre_crash = self.summary(self.w) if self.quiescent_and_synced() else None
                 nw = live.LiveWorld([livecases.make_strategy("A", max_live_trade_count=1e6)], exchange=self.ex, async_place=self.cfg.get("async", False))
                 nw.add_market_file(self.path)
-                nw.next_book(self.mid)
+                orders_first = bool(self.cfg.get("orders_first"))
+                if not orders_first:
+                    nw.next_book(self.mid)
                 self.tr.framework = nw.fw
                 self.worlds.append(nw)
                 self.w = nw
                 self.restarted = True
                 self.tr.shadow[self.mid] = []  # a new instance has a new blotter: the shadow list (C15) restarts with it
                 self.w.snapshot()
+                if orders_first:
+                    # the new instance learnt of the market from the order stream; its market data arrives afterwards
+                    if self.cfg["orders_first"] > 1:
+                        self.w.snapshot()
+                    nw.next_book(self.mid)
         except FlumineException as ex_:
             self.log[-1].append("exc:" + type(ex_).__name__)
 
@@ -326,6 +338,14 @@ def judge(run, out):
     for o in local:
         if o.bet_id and str(o.bet_id) not in ex.bets:
             out.v("local-order-with-unknown-bet-id", tags, bet_id=o.bet_id)
+    if run.cfg.get("foreign"):
+        # "ignored without effect": nothing of the instance's own state knows of the foreign bets' market
+        out.rule("unknown-strategy")
+        extra = sorted(k for k in w.fw.markets.markets if k != run.mid)
+        if extra:
+            out.v("unknown-strategy-update-had-effect", dict(tags, effect="market-registered"), markets=extra)
+        if any(mid_ != run.mid for mid_ in list(st.handed_orders) + list(st.new_markets)):
+            out.v("unknown-strategy-update-had-effect", dict(tags, effect="strategy-callback"), handed=sorted(st.handed_orders), new=st.new_markets)
     # exposure and live-trade accounting computed from the exchange's table (restart: the only source of truth)
     mine = [b for b in ex.bets.values() if (b["customerOrderRef"] or "")[:13] == known_hash]
     if mine and m is not None:
@@ -338,6 +358,12 @@ def judge(run, out):
             out.rule("restart-exposure" if restarted else "exposure")
             if abs(got["worst_possible_profit_on_win"] - w_) > 0.011 or abs(got["worst_possible_profit_on_lose"] - l_) > 0.011:
                 out.v("exposure-differs-from-exchange-table", dict(tags, shared_ref=len({b["customerOrderRef"] for b in mine}) < len(mine)), got=got, expected=(w_, l_), log=run.log)
+            # ... and through the Market object the strategy itself is handed with its market data (what its own code works with)
+            hm = st.handed.get(run.mid)
+            if hm is not None and hm is not m:
+                got_h = hm.blotter.get_exposures(st, (run.mid, sel[0], sel[1]))
+                if abs(got_h["worst_possible_profit_on_win"] - w_) > 0.011 or abs(got_h["worst_possible_profit_on_lose"] - l_) > 0.011:
+                    out.v("exposure-differs-from-exchange-table", dict(tags, via="market-handed-to-strategy", shared_ref=len({b["customerOrderRef"] for b in mine}) < len(mine)), got=got_h, expected=(w_, l_), log=run.log)
             # live-trade count: one trade per customer reference chain
             live_refs = {b["customerOrderRef"] for b in mine if (b["selectionId"], b["handicap"]) == sel and b["status"] != "EXECUTION_COMPLETE"}
             ctx = st.get_runner_context(run.mid, sel[0], sel[1])
